@@ -4,7 +4,7 @@ use super::faults::walk_expr_mut;
 use super::ir::*;
 use crate::engine::Tape;
 
-pub const REWRITES: &[&str] = &["alpha-rename", "permute-classes", "permute-members", "wrap-paren", "wrap-block", "drop-let-annotation", "drop-lambda-annotation", "split-module"];
+pub const REWRITES: &[&str] = &["alpha-rename", "permute-classes", "permute-members", "wrap-paren", "wrap-block", "drop-let-annotation", "drop-lambda-annotation", "drop-type-arguments", "split-module"];
 
 fn rename_pat(p: &mut Pat, f: &dyn Fn(&str) -> String) {
   match p {
@@ -246,6 +246,26 @@ pub fn apply(p: &mut ProgramIr, t: &mut Tape, kind: &str) -> Option<String> {
         });
       }
       if n == 0 { None } else { Some(format!("{n} lambdas")) }
+    }
+    "drop-type-arguments" => {
+      // the reverse of "making inferred type arguments explicit": only calls whose arguments mention
+      // every type argument can be inferred; others are counted as needs-annotation by the check
+      let mut n = 0;
+      let pick = t.raw();
+      for b in member_bodies(p) {
+        walk_expr_mut(b, &mut |e| {
+          if let EK::StaticCall { targs, args, class, .. } = &mut e.kind
+            && !targs.is_empty()
+            && !args.is_empty()
+            && class != "Process"
+            && (pick >> (n % 31)) & 1 == 1
+          {
+            targs.clear();
+            n += 1;
+          }
+        });
+      }
+      if n == 0 { None } else { Some(format!("{n} calls")) }
     }
     "split-module" => {
       // move one class (no private members involved: G1 classes are public) into a new module
